@@ -149,9 +149,14 @@ def instances(tier):
             add(spec('curve', (p,), ((),), rational=True), [{0: 1}, {0: p - 1}])
         if not quick:
             add(spec('curve', (p,), ((1,),), rational=False), [{0: 1}, {0: 1}, {0: 1}], timeout=1200)
+    # knot vectors moved by a symbolic offset of any magnitude
+    add(spec('curve', (2,), ((1, 1),), rational=False, shifted=True), [{0: 1}])
+    add(spec('curve', (3,), ((2,),), rational=True, shifted=True), [{0: 2}])
+    add(spec('surface', (1, 2), ((1,), (1,)), rational=False, shifted=True), [{0: 1, 1: 1}], timeout=1200)
     # the same insertion was applied to another shape first (memoised helpers, module state)
     for sp_, st_, via_ in [(spec('curve', (2,), ((1,),), rational=False), [{0: 1}], 'operations'), (spec('curve', (3,), ((2,),), rational=True), [{0: 1}], 'method'),
                            (spec('curve', (2,), ((1, 1),), rational=True), [{0: 2}], 'operations'),
+                           (spec('curve', (3,), ((1, 1, 1),), rational=False), [{0: 1}], 'operations'), (spec('surface', (2, 1), ((1, 1), ()), rational=False), [{0: 1}], 'operations'),
                            (spec('surface', (1, 2), ((1,), ()), rational=False), [{1: 1}], 'operations'), (spec('surface', (2, 1), ((), (1,)), rational=False), [{0: 1, 1: 1}], 'operations'),
                            (spec('volume', (1, 1, 2), ((), (1,), ()), rational=False), [{2: 1}], 'operations')]:
         add(sp_, st_, via=via_, timeout=1200, after_sibling=True)
@@ -166,6 +171,11 @@ def instances(tier):
     spv = spec('volume', (1, 1, 2), ((), (1,), ()), rational=False, doms=[(-1, 1), (-1, 2), (-3, 1)])
     for d in range(3):
         add(spv, [{d: 1}], timeout=1200)
+    # several insertions in ONE call on volumes (rows of points are blended in place more than once)
+    add(spec('volume', (1, 1, 2), ((), (1,), ()), rational=False), [{2: 2}], timeout=1800)
+    add(spec('volume', (2, 1, 1), ((), (), (1,)), rational=True), [{0: 2}], timeout=1800)
+    add(spec('volume', (1, 2, 1), ((1,), (), ()), rational=False), [{1: 2}], timeout=1800)
+    add(spec('volume', (1, 2, 1), ((1,), (), ()), rational=False), [{1: 3}], timeout=1800)
     from .. import families as fam
     for p in (1, 2, 3):
         for m in sorted(set([(1,), (1, 1), (p, 1)])):
